@@ -897,11 +897,22 @@ func runC03(p *core.Prog, r *core.Report, tier string) {
 			if jf == nil {
 				continue
 			}
+			var epochVals []ssa.Value
 			for _, sl := range core.StructLits(jf, "prepareForEpochData") {
-				ev := sl.Fields["epoch"]
-				if ev == nil {
-					continue
+				if ev := sl.Fields["epoch"]; ev != nil {
+					epochVals = append(epochVals, ev)
 				}
+			}
+			if len(epochVals) == 0 {
+				// the epoch handed over as a plain argument
+				for _, pc := range core.Calls(jf, func(c *ssa.CallCommon) bool { return c.StaticCallee() != nil && c.StaticCallee().Name() == "prepareForEpoch" }) {
+					a := pc.Common().Args
+					if last := a[len(a)-1]; strings.HasSuffix(last.Type().String(), "phase0.Epoch") {
+						epochVals = append(epochVals, last)
+					}
+				}
+			}
+			for _, ev := range epochVals {
 				nPrep++
 				ed := ds.D(ev).String()
 				r.Check(strings.Contains(nameArgs.String(), ed), "C03.r", core.FnKey(st.fn)+"|prepare-job-named-after-its-epoch", p.Pos(st.call.Pos()), "the job is named after the epoch it prepares: "+ed,
